@@ -519,6 +519,9 @@ func c05DiffPages(a, b []byte, ps int) string {
 
 // c05Shape names the structural class of the valid frames [start,valid).
 func c05Shape(p *c05P, start, valid int) string {
+	if p.H.BE {
+		return "big-endian"
+	}
 	if start > 0 {
 		return "resume"
 	}
@@ -552,10 +555,10 @@ func c05Shape(p *c05P, start, valid int) string {
 	return "simple"
 }
 
-// c05Foreign reports whether the compacted output holds a page image that only exists outside [start,valid).
-func c05Foreign(out []byte, orig []byte, p *c05P, start, valid int) bool {
+// c05Foreign reports whether the compacted output holds a page image that only exists beyond the valid prefix.
+func c05Foreign(out []byte, orig []byte, p *c05P, valid int) bool {
 	op := c05Parse(out)
-	if !op.HdrOK {
+	if !op.HdrOK || !p.HdrOK {
 		return false
 	}
 	for i := range op.F {
@@ -563,18 +566,18 @@ func c05Foreign(out []byte, orig []byte, p *c05P, start, valid int) bool {
 			continue
 		}
 		d := op.data(out, i)
-		in, outside := false, false
+		in, beyond := false, false
 		for j := range p.F {
 			if !p.F[j].DataFull || !bytes.Equal(d, p.data(orig, j)) {
 				continue
 			}
-			if j >= start && j < valid {
+			if j < valid {
 				in = true
 			} else {
-				outside = true
+				beyond = true
 			}
 		}
-		if outside && !in {
+		if beyond && !in {
 			return true
 		}
 	}
@@ -587,7 +590,7 @@ func c05Foreign(out []byte, orig []byte, p *c05P, start, valid int) bool {
 type c05Judge struct {
 	r     *kit.Run
 	cache *c05Cache
-	part  string
+	fault func(f string, a ...any) // harness fault (the oracle itself is broken): fails the test
 }
 
 type c05Case struct {
@@ -597,7 +600,9 @@ type c05Case struct {
 	baseKey [16]byte
 	start   int
 	full    bool
-	class   string // flaw class of the WAL
+	class   string // description of the WAL for messages
+	flaw    string // key class of the file's flaw, "" for a flawless WAL
+	group   string // key prefix ("" synthetic, "sqlite:" real WALs)
 	lenient bool   // statement does not cover this input: an error is as good as the equivalent result
 	replay  any
 	wk      *c05Work
@@ -618,9 +623,13 @@ func (j *c05Judge) judge(c *c05Case) string {
 	if c.full {
 		mode = "full"
 	}
+	flawKey := c.flaw
+	if flawKey == "" {
+		flawKey = "clean"
+	}
 	var o c05Out
 	panicked := true
-	r.Guard("C05:panic:"+c.class, c.replay, func() {
+	r.Guard("C05:panic:"+c.group+flawKey, c.replay, func() {
 		o = c05Compact(c.wal, c.start, c.full, &c.wk.out)
 		panicked = false
 	})
@@ -647,14 +656,6 @@ func (j *c05Judge) judge(c *c05Case) string {
 		}
 		return mode + ":open-tx-error"
 	}
-	if e := o.err(); e != nil {
-		if c.lenient {
-			return mode + ":lenient-error"
-		}
-		r.Violation("C05:unexpected-error:"+c.class+":"+c05Shape(p, c.start, valid),
-			fmt.Sprintf("%s scan from frame %d of a %s WAL with %d valid frames ending at a commit failed: %v", mode, c.start, c.class, valid, e), c.replay)
-		return mode + ":unexpected-error"
-	}
 	var ref []byte
 	if c.start == 0 && p.HdrOK {
 		ref = c.wal[:c05HdrSize+valid*p.FS]
@@ -663,34 +664,73 @@ func (j *c05Judge) judge(c *c05Case) string {
 	} else {
 		ref = nil // SQLite ignores a WAL with a bad header; an empty WAL file is the reference
 	}
+	// key names the class of a failure: the flaw of the file if only the flawed file fails, else (the
+	// clean valid prefix alone fails the same way) the shape of the committed frames.
+	key := func(kind string, bytesAPI bool, want *c05Digest) string {
+		if c.flaw != "" && p.HdrOK && len(c.wal) != c05HdrSize+valid*p.FS {
+			var tmp bytes.Buffer
+			var po c05Out
+			ok := false
+			func() {
+				defer func() { recover() }()
+				po = c05Compact(c.wal[:c05HdrSize+valid*p.FS], c.start, c.full, &tmp)
+				ok = true
+			}()
+			if ok && po.err() == nil && want != nil {
+				out := po.W
+				if bytesAPI {
+					out = po.B
+				}
+				if j.cache.get(c.baseKey, c.base, out).same(*want) {
+					return "C05:" + kind + ":" + c.group + c.flaw
+				}
+			} else if ok && po.err() == nil {
+				return "C05:" + kind + ":" + c.group + c.flaw
+			}
+		} else if c.flaw != "" {
+			return "C05:" + kind + ":" + c.group + c.flaw
+		}
+		return "C05:" + kind + ":" + c.group + c05Shape(p, c.start, valid)
+	}
+	if e := o.err(); e != nil {
+		if c.lenient {
+			return mode + ":lenient-error"
+		}
+		r.Violation(key("unexpected-error", false, nil),
+			fmt.Sprintf("%s scan from frame %d of a %s WAL with %d valid frames ending at a commit failed: %v", mode, c.start, c.class, valid, e), c.replay)
+		return mode + ":unexpected-error"
+	}
 	want := j.cache.get(c.baseKey, c.base, ref)
 	if want.Err != "" || (p.HdrOK && want.Log != valid-c.start) {
-		r.Note("HARNESS: reference WAL not accepted by SQLite: %+v replay=%v", want, c.replay)
-		j.r.Add("harness_reference_rejected", 1)
+		j.fault("reference WAL not accepted by SQLite: %+v replay=%+v", want, c.replay)
 		return mode + ":harness-bad-reference"
 	}
 	label := fmt.Sprintf("%s:ok:%x", mode, want.H[:6])
-	check := func(out []byte, via string) {
+	check := func(out []byte, bytesAPI bool) {
 		got := j.cache.get(c.baseKey, c.base, out)
 		if got.same(want) {
 			return
 		}
-		key := "C05:compacted-differs:" + c.class + ":" + c05Shape(p, c.start, valid)
-		if c05Foreign(out, c.wal, p, c.start, valid) {
-			key = "C05:stale-frame-included:" + c.class
+		via := "Writer.WriteTo"
+		if bytesAPI {
+			via = "Bytes()"
+		}
+		k := key("compacted-differs", bytesAPI, &want)
+		if c05Foreign(out, c.wal, p, valid) {
+			k = "C05:stale-frame-included:" + c.group + flawKey
 		}
 		a := j.cache.q.checkpoint(c.base, out)
 		b := j.cache.q.checkpoint(c.base, ref)
 		what := fmt.Sprintf("%s scan from frame %d (%s) of a %s WAL (%d valid frames): SQLite checkpoint of the compacted WAL (%d frames, sqlite recovered %d, err=%q) differs from checkpoint of the committed frames: %s",
 			mode, c.start, via, c.class, valid, o.NFrames, a.Log, a.Err, c05DiffPages(a.DB, b.DB, int(p.H.PageSize)))
-		r.Violation(key, what, c.replay)
+		r.Violation(k, what, c.replay)
 		label = mode + ":differs"
 	}
-	check(o.W, "Writer.WriteTo")
+	check(o.W, false)
 	if o.BErr != nil {
-		r.Violation("C05:unexpected-error:bytes:"+c.class, fmt.Sprintf("Bytes() failed where WriteTo succeeded: %v", o.BErr), c.replay)
+		r.Violation("C05:unexpected-error:"+c.group+"bytes-api", fmt.Sprintf("Bytes() failed where WriteTo succeeded on a %s WAL: %v", c.class, o.BErr), c.replay)
 	} else if !bytes.Equal(o.B, o.W) {
-		check(o.B, "Bytes()")
+		check(o.B, true)
 	}
 	return label
 }
@@ -855,22 +895,22 @@ func (s *c05Synth) variant(bw *c05BaseWAL, sp c05Spec, dst []byte) (wal []byte, 
 	panic("c05: unknown flaw " + sp.Flaw)
 }
 
+// c05FlawClass maps a spec's flaw to its violation-key class ("" for a flawless WAL).
 func c05FlawClass(sp c05Spec) string {
 	c := sp.Flaw
 	switch {
+	case c == "clean":
+		return ""
 	case c == "stale-s1" || c == "stale-s2":
-		c = "stale-one"
+		return "stale-one"
 	case strings.HasPrefix(c, "ck-"):
-		c = "cksum"
+		return "cksum"
 	case c == "cut":
-		c = "truncated"
+		return "truncated"
 	case c == "hdr-cut" || c == "hdr-ck":
-		c = "bad-header"
+		return "bad-header"
 	case strings.HasPrefix(c, "garbage"):
-		c = "garbage"
-	}
-	if sp.BE {
-		c += "-be"
+		return "garbage"
 	}
 	return c
 }
@@ -952,7 +992,7 @@ func TestVerif_C05_synthetic(t *testing.T) {
 		N, NBE = v, v
 		r.Cap("VERIF_C05_N=%d overrides the frame bound", v)
 	}
-	NV := r.Pick(2, 4) // whole flawed WALs of up to NV frames are also handed to SQLite to validate the harness's validity model
+	NV := r.Pick(2, 3) // whole flawed WALs of up to NV frames are also handed to SQLite to validate the harness's validity model
 	r.Rule(fmt.Sprintf("every WAL of <=%d frames (<=%d with big-endian checksum magic) over frame alphabet page{1,2,3,4} x commit{0,3,4} on a real 4-page 512-byte-page SQLite database, every frame carrying a distinct page image; each WAL clean and with every single flaw: stale-salt tail from an earlier generation at any frame, one frame with only salt1 / only salt2 stale, checksum broken by a data byte / checksum field / page-number change at any frame, last frame cut at 8 offsets, header cut/corrupt (empty WAL), 4 kinds of trailing garbage, a checksummed page-0 frame; each compacted by NewCompactingFrameScanner+Writer.WriteTo (and Bytes()) with fullScan at frame 0 and without fullScan at every commit boundary of the valid prefix. distinct = (mode, outcome, final database image)", N, NBE))
 	r.Assume("SQLite's WAL recovery and checkpoint (PRAGMA wal_checkpoint) are the reference semantics of a WAL; a checkpoint result is a deterministic function of (database bytes, WAL bytes) and is memoised on that pair")
 	r.Assume("without fullScan a frame with matching salts but bad checksum or missing page bytes is outside the documented contract (trusted WAL): only absence of panics is required there")
@@ -970,14 +1010,13 @@ func TestVerif_C05_synthetic(t *testing.T) {
 			}
 		}
 	}
-	j := &c05Judge{r: r, cache: cache, part: "synthetic"}
-
 	var harnessFaults, nValidated atomic.Int64
 	fault := func(f string, a ...any) {
 		if harnessFaults.Add(1) <= 10 {
 			t.Errorf("HARNESS FAULT: "+f, a...)
 		}
 	}
+	j := &c05Judge{r: r, cache: cache, fault: fault}
 
 	// runSpec judges every (start, mode) case of one WAL variant. validate => also feed the whole
 	// flawed WAL to SQLite and compare its recovery with the harness's model of the valid prefix.
@@ -985,8 +1024,12 @@ func TestVerif_C05_synthetic(t *testing.T) {
 		walb, intended := s.variant(bw, sp, wk.wal)
 		wk.wal = walb[:0]
 		p := c05Parse(walb)
-		class := c05FlawClass(sp)
-		if p.HdrOK != (class != "bad-header" && class != "bad-header-be") || (p.HdrOK && p.FullValid != intended) {
+		flaw := c05FlawClass(sp)
+		class := sp.Flaw
+		if sp.BE {
+			class += " big-endian"
+		}
+		if p.HdrOK != (flaw != "bad-header") || (p.HdrOK && p.FullValid != intended) {
 			fault("parser finds %d valid frames (hdr %v), spec %+v intends %d", p.FullValid, p.HdrOK, sp, intended)
 			return
 		}
@@ -1012,7 +1055,7 @@ func TestVerif_C05_synthetic(t *testing.T) {
 			r.Validated(1)
 			nValidated.Add(1)
 		}
-		lenient := class == "zero-pgno" || class == "zero-pgno-be" || !p.HdrOK
+		lenient := flaw == "zero-pgno" || !p.HdrOK
 		type cs struct {
 			start int
 			full  bool
@@ -1030,8 +1073,8 @@ func TestVerif_C05_synthetic(t *testing.T) {
 				continue
 			}
 			rp := c05Replay{Part: "synthetic", Spec: sp, Start: c.start, Full: c.full}
-			out := j.judge(&c05Case{wal: walb, p: &p, base: s.base, baseKey: s.baseKey, start: c.start, full: c.full, class: class, lenient: lenient, replay: rp, wk: wk})
-			seen[fmt.Sprintf("%s|%s|%d", class, out, c.start)] = struct{}{}
+			out := j.judge(&c05Case{wal: walb, p: &p, base: s.base, baseKey: s.baseKey, start: c.start, full: c.full, class: class, flaw: flaw, lenient: lenient, replay: rp, wk: wk})
+			seen[fmt.Sprintf("%s|%v|%s|%d", flaw, sp.BE, out, c.start)] = struct{}{}
 			if only != nil {
 				t.Logf("replay %+v -> %s", rp, out)
 			}
@@ -1310,7 +1353,6 @@ func TestVerif_C05_sqlite(t *testing.T) {
 	q := c05NewSQ(dir)
 	defer q.closeAll()
 	cache := c05NewCache(q) // only used through judge; keys differ per script (random salts)
-	j := &c05Judge{r: r, cache: cache, part: "sqlite"}
 	bases := map[int][]byte{}
 	for _, ps := range sizes {
 		bases[ps] = c05MakeRealBase(t, dir, ps)
@@ -1322,6 +1364,7 @@ func TestVerif_C05_sqlite(t *testing.T) {
 		}
 	}
 	var staleSeen, framesTotal, maxFrames atomic.Int64
+	j := &c05Judge{r: r, cache: cache, fault: fault}
 
 	runScript := func(sc c05Script, only *c05RealReplay) {
 		dbBase, walb, live, err := c05RunScript(q, bases[sc.PS], sc)
@@ -1359,53 +1402,56 @@ func TestVerif_C05_sqlite(t *testing.T) {
 				break
 			}
 		}
-		class := "sqlite-clean"
-		if sc.Prelude {
-			class = "sqlite-stale-generation"
+		class := fmt.Sprintf("SQLite-written (page size %d)", sc.PS)
+		flaw := ""
+		if len(p.F) > valid {
+			class = fmt.Sprintf("SQLite-written (page size %d, %d stale frames of the previous generation behind the valid ones)", sc.PS, len(p.F)-valid)
+			flaw = "stale-generation"
 		}
-		class += fmt.Sprintf("-ps%d", sc.PS)
-		// Oracle self-check: checkpoint of the valid prefix by a fresh connection == SQLite's live checkpoint.
+		// Oracle self-check: checkpoint of the whole file by a fresh connection == SQLite's live checkpoint,
+		// and SQLite recovers exactly the frames the model calls valid.
 		whole := q.checkpoint(dbBase, walb)
 		if whole.Err != "" || whole.Log != valid || !bytes.Equal(whole.DB, live) {
 			fault("script %+v: re-checkpointing SQLite's own WAL (log=%d err=%q, model valid=%d) does not give the live checkpoint result (%s)", sc, whole.Log, whole.Err, valid, c05DiffPages(whole.DB, live, sc.PS))
 			return
 		}
 		r.Validated(1)
-		type cs struct {
-			start int
-			full  bool
-		}
-		cases := []cs{{0, true}}
-		for _, b := range p.boundaries(valid) {
-			cases = append(cases, cs{b, false})
-		}
-		for _, c := range cases {
-			if only != nil && (only.Start != c.start || only.Full != c.full) {
-				continue
+		liveKey := c05Key(live)
+		wk := &c05Work{}
+		bk, bkAt := dbBase, 0 // database with frames [0,bkAt) checkpointed
+		one := func(start int, full bool) {
+			if only != nil && (only.Start != start || only.Full != full) {
+				return
 			}
-			bk := dbBase
-			if c.start > 0 {
-				pre := q.checkpoint(dbBase, c05Ref(walb, &p, 0, c.start))
-				if pre.Err != "" || pre.Log != c.start {
-					fault("script %+v: prefix [0,%d) reference WAL rejected: log=%d err=%q", sc, c.start, pre.Log, pre.Err)
-					return
-				}
-				bk = pre.DB
-				// composition: prefix then suffix must give the live result
-				suf := q.checkpoint(bk, c05Ref(walb, &p, c.start, valid))
-				if suf.Err != "" || !bytes.Equal(suf.DB, live) {
-					fault("script %+v: checkpointing [0,%d) then [%d,%d) does not give the live result: err=%q %s", sc, c.start, c.start, valid, suf.Err, c05DiffPages(suf.DB, live, sc.PS))
+			bkKey := c05Key(bk)
+			if start > 0 {
+				// composition self-check: prefix checkpoint then the reference suffix must give the live result
+				suf := cache.get(bkKey, bk, c05Ref(walb, &p, start, valid))
+				if suf.Err != "" || suf.H != liveKey {
+					fault("script %+v: checkpointing [0,%d) then [%d,%d) does not give the live result: %+v", sc, start, start, valid, suf)
 					return
 				}
 				r.Validated(1)
 			}
-			rp := c05RealReplay{Part: "sqlite", Script: sc, Start: c.start, Full: c.full}
-			out := j.judge(&c05Case{wal: walb, p: &p, base: bk, baseKey: c05Key(bk), start: c.start, full: c.full, class: class, replay: rp, wk: &c05Work{}})
+			rp := c05RealReplay{Part: "sqlite", Script: sc, Start: start, Full: full}
+			out := j.judge(&c05Case{wal: walb, p: &p, base: bk, baseKey: bkKey, start: start, full: full, class: class, flaw: flaw, group: "sqlite:", replay: rp, wk: wk})
 			r.Eval(1)
-			r.Distinct(fmt.Sprintf("%s|%s|%d", class, out, c.start))
+			r.Distinct(fmt.Sprintf("%d|%v|%s|%d", sc.PS, flaw != "", out, start))
 			if only != nil {
 				t.Logf("replay %+v -> %s", rp, out)
 			}
+		}
+		one(0, true)
+		for _, b := range p.boundaries(valid) {
+			if b > bkAt {
+				pre := q.checkpoint(bk, c05Ref(walb, &p, bkAt, b))
+				if pre.Err != "" || pre.Log != b-bkAt {
+					fault("script %+v: reference WAL for frames [%d,%d) rejected: log=%d err=%q", sc, bkAt, b, pre.Log, pre.Err)
+					return
+				}
+				bk, bkAt = pre.DB, b
+			}
+			one(b, false)
 		}
 	}
 
